@@ -8,6 +8,7 @@ package main
 import (
 	"bufio"
 	"context"
+	"crypto/tls"
 	"encoding/binary"
 	"fmt"
 	"io"
@@ -120,7 +121,11 @@ type legacyConn struct {
 }
 
 func dialRaw(g *gwInstance) (net.Conn, error) {
-	return net.DialTimeout("tcp", fmt.Sprintf("127.0.0.1:%d", g.port), 3*time.Second)
+	addr := fmt.Sprintf("127.0.0.1:%d", g.port)
+	if g.tls {
+		return tls.DialWithDialer(&net.Dialer{Timeout: 3 * time.Second}, "tcp", addr, &tls.Config{InsecureSkipVerify: true})
+	}
+	return net.DialTimeout("tcp", addr, 3*time.Second)
 }
 
 func legacyOpenOut(g *gwInstance, id string, hdr map[string]string) (net.Conn, *bufio.Reader, int, error) {
@@ -246,6 +251,7 @@ type tunnelScript struct {
 	packets   [][]byte // sent one per message / chunk
 	hostSends []byte   // what the backend writes once connected
 	xff       string
+	auth      string   // Authorization header value ("" = none)
 	afterEnd  [][]byte // packets sent after the tunnel should have ended (silence check)
 	end       string   // how the client ends: close | leave
 }
@@ -263,6 +269,9 @@ func openTunnel(g *gwInstance, sc tunnelScript) (tclient, error) {
 	hdr := map[string]string{}
 	if sc.xff != "" {
 		hdr["X-Forwarded-For"] = sc.xff
+	}
+	if sc.auth != "" {
+		hdr["Authorization"] = sc.auth
 	}
 	if sc.transport == "legacy" {
 		return legacyDial(g, sc.id, hdr)
